@@ -367,7 +367,7 @@ class TT():
         Returns:
             numpy.array: the full tensor in numpy.
         """
-        return self.full().cpu().numpy()
+        return self.full().resolve_conj().cpu().numpy()
 
     def __repr__(self):
         """
